@@ -1151,6 +1151,37 @@ fn multiclass_svm_one_vs_all() -> Result<Fp, String> {
     Ok(fp)
 }
 
+/// one-vs-all members in the order `one_vs_all()` yields them (the documented idiom), linear kernels,
+/// queries so far out that two members' calibrated probabilities both saturate to exactly 1.0: the
+/// multi-class arg-max breaks such ties by member position
+fn multiclass_one_vs_all_saturated_ties() -> Result<Fp, String> {
+    use linfa::composing::MultiClassModel;
+    use linfa_svm::Svm;
+    let n = 60;
+    let x = Array2::from_shape_fn((n, 2), |(i, j)| {
+        let c = i % 3;
+        let centre = match (c, j) {
+            (1, 0) => 10.0,
+            (2, 1) => 10.0,
+            _ => 0.0,
+        };
+        centre + (((i * 7 + j * 3) % 11) as f64 - 5.0) * 0.1
+    });
+    let y = Array1::from_shape_fn(n, |i| i % 3);
+    let ds = Dataset::new(x.clone(), y);
+    let params = Svm::<f64, Pr>::params().linear_kernel();
+    let mut members = Vec::new();
+    for (l, d) in ds.one_vs_all().map_err(e)? {
+        members.push((l, params.fit(&d).map_err(e)?));
+    }
+    let model = members.into_iter().collect::<MultiClassModel<_, _>>();
+    let q = ndarray::array![[1e4, 1e4], [1e5, 1e5], [1e4, -1e4], [-1e4, 1e4], [-1e4, -1e4], [5.0, 5.0]];
+    let mut fp = Fp::new();
+    bu(&mut fp, model.predict(&q).as_slice().unwrap());
+    bu(&mut fp, model.predict(&x).as_slice().unwrap());
+    Ok(fp)
+}
+
 // ---------- hard inputs: fits that do not converge / degenerate data, where fallback, retry and
 // error paths run (a reproducible estimator is reproducible there too; Err and panic texts are
 // compared like results) ----------
@@ -1410,6 +1441,6 @@ pub fn registry() -> Vec<Entry> {
         pca, random_projections, diffusion_map, fast_ica_seeded,
         diffusion_map_slowly_converging, pca_hard, iterative_fits_stopped_early,
         seeds_at_boundary_values, nb_unbalanced_classes, kmeans_pp_20000, pls_svd, kmeans_l1_big_f32, kernels_sparse_all_indices, svm_poly_f32_and_logistic_f32,
-        scalers, whiteners, vectorizers, platt, one_vs_all_and_confusion, multiclass_svm_one_vs_all,
+        scalers, whiteners, vectorizers, platt, one_vs_all_and_confusion, multiclass_svm_one_vs_all, multiclass_one_vs_all_saturated_ties,
     ]
 }
